@@ -24,6 +24,8 @@ import (
 	"os/signal"
 	"path/filepath"
 	"strings"
+	"sync"
+	"sync/atomic"
 	"syscall"
 	"time"
 
@@ -98,12 +100,32 @@ func main() {
 		}
 	}
 	tr := &plug.Transcript{Name: name, Argv: os.Args, Cwd: cwd, End: "eof"}
+	var finMu sync.Mutex
+	var interrupted atomic.Bool
 	finish := func(code int) {
+		finMu.Lock() // never released: the first caller ends the process
+		if code == 0 {
+			code = sc.ExitCode
+			if interrupted.Load() {
+				code = sc.OnInterrupt
+			}
+		}
 		b, _ := json.Marshal(tr)
 		tmp := filepath.Join(dir, fmt.Sprintf(".%s.%d.tmp", name, os.Getpid()))
 		os.WriteFile(tmp, b, 0o644)
 		os.Rename(tmp, filepath.Join(dir, name+".transcript.json"))
 		os.Exit(code)
+	}
+	if sc.OnInterrupt > 0 {
+		ch := make(chan os.Signal, 1)
+		signal.Reset(os.Interrupt)
+		signal.Notify(ch, os.Interrupt)
+		go func() {
+			// like a program that finishes its clean-up after the signal and
+			// then reports "interrupted" through its exit status
+			<-ch
+			interrupted.Store(true)
+		}()
 	}
 	// overall self-destruct so a client that never closes stdin cannot leave
 	// plugin processes behind
